@@ -290,6 +290,11 @@ def outcomes_of_local(body, local, extra_transparent=None, max_iter=50):
                 if a and "p" in a and a["p"]["l"] in car and _transparent_field(a["p"]["proj"]):
                     car[dl] = car[a["p"]["l"]]
                     changed = True
+            elif callee_def(t) == "core::ops::bit::Not::not":
+                a = t["args"][0]
+                if "p" in a and a["p"]["l"] in car and not fields_only(norm_proj(a["p"]["proj"])):
+                    car[dl] = not car[a["p"]["l"]]
+                    changed = True
     out = Outcomes()
     out.carriers = car
     for bi in body.live_blocks():
@@ -577,3 +582,49 @@ def forward(body, start_locals, declassify=None, max_iter=100):
                         T.add(tgt)
                         changed = True
     return T, list(calls.values())
+
+
+# ------------------------------------------------------------------------------------------------
+# return-value writes
+# ------------------------------------------------------------------------------------------------
+
+def return_writes(body):
+    """every write to the return place on the normal path: list of dicts
+    {'bi','kind': 'Ok'|'Err'|'Some'|'None'|'call'|'use'|'other', 'rv'|'term', 'via_residual': bool}"""
+    out = []
+    for bi in body.live_blocks():
+        b = body.blocks[bi]
+        for st in b["stmts"]:
+            if st["dst"]["l"] == 0 and not st["dst"]["proj"]:
+                rv = st["rv"]
+                if rv["k"] == "agg" and rv.get("agg") == "adt" and rv.get("adt") in ("core::result::Result", "core::option::Option"):
+                    out.append({"bi": bi, "kind": rv["variant"], "rv": rv})
+                elif rv["k"] == "use":
+                    out.append({"bi": bi, "kind": "use", "rv": rv})
+                else:
+                    out.append({"bi": bi, "kind": "other", "rv": rv})
+        t = b["term"]
+        if t["k"] == "call" and t["dst"]["l"] == 0 and not t["dst"]["proj"]:
+            d = callee_def(t)
+            out.append({"bi": bi, "kind": "residual" if d.endswith("FromResidual::from_residual") else "call", "term": t})
+    return out
+
+
+def is_none_literal(body, op):
+    """operand is (a move of) the literal Option::None"""
+    c = op
+    for _ in range(6):
+        p = op_place(c)
+        if p is None:
+            return False
+        df = single_def(body, p["l"])
+        if df is None or df["kind"] != "assign":
+            return False
+        rv = df["rv"]
+        if rv["k"] == "agg" and rv.get("adt") == "core::option::Option":
+            return rv["variant"] == "None"
+        if rv["k"] == "use":
+            c = rv["ops"][0]
+            continue
+        return False
+    return False
